@@ -165,7 +165,7 @@ class DilCase:
             kw = dict(ping_interval=P["ping_interval"][i], no_listen=P["no_listen"][i])
             if P["expected"][i] is not None:
                 kw["expected_subprotocols"] = list(P["expected"][i])
-            if self.relay:
+            if self.relay and (P.get("relay_sides") or [1, 1])[i]:
                 kw["transit_relay_location"] = self.relay
             self.dw[i] = self.ws[i].dilate(**kw)
         except Exception as ex:
@@ -306,6 +306,16 @@ class DilCase:
             m._traced = True
             m._trace_state = "WAITING"
             m._trace_log = []
+            # remember where in the network's dial log each Connector generation of this Manager starts
+            sc_ = getattr(m, "_start_connecting", None)
+            if callable(sc_):
+                def start_connecting(m=m, sc_=sc_):
+                    m._verif_dial_mark = len(self.W.net.dialled)
+                    return sc_()
+                try:
+                    m._start_connecting = start_connecting
+                except Exception:
+                    pass
 
             def tr(old_state, input, new_state, m=m):
                 m._trace_state = new_state
